@@ -2,6 +2,7 @@
 //! scripts and prints `script` / `op` / `obs` lines (see DESIGN.md, appendix A).
 mod c07;
 mod c13;
+mod c15codec;
 mod c19;
 mod c20;
 mod cli;
@@ -121,6 +122,13 @@ fn main() {
                 c07::generate(&mut out, seed, scripts, len);
             } else {
                 c07::replay(&mut out, &read_scripts(&replay));
+            }
+        }
+        "c15bin" => {
+            if replay.is_empty() {
+                c15codec::generate(&mut out, seed, scripts, len);
+            } else {
+                c15codec::replay(&mut out, &read_scripts(&replay));
             }
         }
         "c19" => {
